@@ -200,7 +200,16 @@ void sweep(mc::Reporter& r)
                         H const num = std::sqrt(dr * dr + di * di);
                         H den       = std::sqrt(hi.real() * hi.real() + hi.imag() * hi.imag());
                         if (den < tmin) { den = tmin; }
-                        double const err = double(num / den / eps);
+                        double err       = double(num / den / eps);
+                        {
+                            // distance to std's own same-type result, when that is smaller (see judge())
+                            H const er   = H(got.real()) - H(ref.real());
+                            H const ei   = H(got.imag()) - H(ref.imag());
+                            H den2       = std::sqrt(H(ref.real()) * H(ref.real()) + H(ref.imag()) * H(ref.imag()));
+                            if (den2 < tmin) { den2 = tmin; }
+                            double const e2 = double(std::sqrt(er * er + ei * ei) / den2 / eps);
+                            if (e2 < err) { err = e2; }
+                        }
                         if (err <= cap && err > max_err) {
                             max_err = err;
                             max_at  = kase();
